@@ -28,6 +28,11 @@ SOURCE = ('<s xmlns:p="urn:srcp" xmlns="urn:sd"><p:x a="1" p:b="2"><y xmlns="" c
           '<v xmlns="" xmlns:r="urn:srcr" r:m="5"><r:n/><u d="6"/></v></s>')
 # the source elements an instruction can copy: the four children of the document element, and (5) an element in no namespace that has NO
 # namespace declaration of its own (xsl:copy of it below a result element with a default namespace must undeclare that namespace itself)
+# a second source document WITHOUT a default namespace on its document element: its elements in no namespace (w, v, u, y) have no
+# xmlns="" anywhere among their ancestors, so nothing that is copied along with them undeclares a default namespace of the result
+SOURCE2 = ('<s xmlns:p="urn:srcp"><p:x a="1" p:b="2"><y c="3"/>t</p:x><z xmlns="urn:sd" xmlns:q="urn:srcq" q:k="4"/><w xml:lang="en" xmlns:p="urn:srcp2"/>'
+           '<v xmlns:r="urn:srcr" r:m="5"><r:n/><u d="6"/></v></s>')
+SOURCES = [SOURCE, SOURCE2]
 SEL_PATH = {1: '/*/*[1]', 2: '/*/*[2]', 3: '/*/*[3]', 4: '/*/*[4]', 5: '/*/*[4]/*[2]'}
 FLAGS = set()
 _loaded = []
@@ -122,7 +127,7 @@ def cases(draw):
             alias = None
     sets = {'s1': [draw(attr_instr()) for _ in range(draw(st.integers(1, 2)))], 's2': [draw(attr_instr())]}
     sets_use = draw(st.booleans())   # s1 uses s2
-    return {'top': top, 'excl': excl, 'alias': alias, 'default_ns': default_ns, 'sets': sets, 's1_uses_s2': sets_use}
+    return {'top': top, 'excl': excl, 'alias': alias, 'default_ns': default_ns, 'sets': sets, 's1_uses_s2': sets_use, 'src': draw(st.sampled_from([0, 0, 1]))}
 
 
 def strategy(ctx):
@@ -223,14 +228,14 @@ class Invalid(Exception):
     pass
 
 
-def src_model():
+def src_model(case=None):
     from .. import model
-    return model.parse_document(SOURCE)
+    return model.parse_document(SOURCES[(case or {}).get('src', 0)])
 
 
 def expected(case):
     """-> expected_tree-style list; raises Invalid when the generated stylesheet would be in error"""
-    doc = src_model()
+    doc = src_model(case)
     srcs = list(doc.root.children[0].children)   # /*/*[n]
     srcs.append(srcs[3].children[1])             # SEL_PATH[5]
     alias_from = alias_to = None
@@ -440,7 +445,7 @@ def check(ctx, case):
     ctx.note(case, nontrivial, ['collision' if stats['collision'] else 'no-collision', 'alias' if case['alias'] else 'no-alias', 'excl:%d' % len(case['excl'])],
              sample_text={'xsl': stylesheet(case)[:700]})
     xsl = stylesheet(case)
-    r = ctx.drv.call('transform', xsl=xsl.encode('utf-8'), xml=SOURCE.encode('utf-8'))
+    r = ctx.drv.call('transform', xsl=xsl.encode('utf-8'), xml=SOURCES[case.get('src', 0)].encode('utf-8'))
     if r.gets('rc') != '0':
         return {'what': 'transformation-failed', 'err': (r.gets('err') or '')[:300], 'xsl': xsl[:1500]}
     out = r.get('out') or b''
